@@ -2,6 +2,7 @@ package main
 
 import (
 	"bytes"
+
 	"fmt"
 	"io"
 	"os"
@@ -9,6 +10,7 @@ import (
 	"path/filepath"
 	"strings"
 	"time"
+	"verifharness/interp"
 
 	"github.com/akrylysov/pogreb/fs"
 )
@@ -251,7 +253,90 @@ var lockCorpus = []string{
 	"A0 S0 S0 S0 S0 A1 S1 S1 S1 A2 S2 S2 S2",
 }
 
+// genC13db: the database level. A competing Open fails with "locked" and changes nothing; a
+// directory whose last session did not complete Close is recovered by the next SUCCESSFUL Open --
+// also when an Open in between acquired the stale lock and then failed (fault injected at its k-th
+// file-system call); a cleanly closed one is opened without recovery.
+func genC13db(r *rng, tier string, res *Result) {
+	n := scale(tier, 25, 300)
+	for i := 0; i < n; i++ {
+		g := newG(r.fork(), fmt.Sprintf("C13/db/%d", i))
+		g.dumpEvery = 0
+		g.params([]int{700, 2048}[g.r.intn(2)], 512, 0.3, false)
+		g.open()
+		g.keys = g.randomKeys(10)
+		for j := 0; j < 5+g.r.intn(30); j++ {
+			g.randomOp()
+		}
+		// a competing Open
+		before := strings.Join(g.im.FS.List(g.im.Dir), " ")
+		g.do(fmt.Sprintf("open %d", g.r.intn(1000)), "open err locked")
+		if after := strings.Join(g.im.FS.List(g.im.Dir), " "); after != before {
+			g.do("echo failed-open-changed-the-directory", "echo ok")
+		}
+		g.checkAll()
+		if i%2 == 0 {
+			g.close()
+			g.open()
+			g.c.Steps[len(g.c.Steps)-1].Expect = []string{"open ok recovered=0"}
+			g.checkAll()
+			for j := 0; j < 5; j++ {
+				g.put(g.pick(), g.value())
+			}
+		}
+		// unclean end of the session; then Opens that fail at their k-th file-system call
+		g.do("kill")
+		g.isOpen = false
+		tries := 0
+		for k := 0; k < 60 && tries < scale(tier, 6, 25); k += 1 + g.r.intn(4) {
+			img := g.im.FS.Image()
+			g.im.FS.FailCall = g.im.FS.Calls + k
+			out := resultLine(normalise(g.im.Exec(fmt.Sprintf("open %d", 7+k))))
+			g.im.FS.FailCall = -1
+			if strings.HasPrefix(out, "open ok") {
+				// the fault was not reached: this Open succeeded; it must have recovered
+				if !strings.Contains(out, "recovered=1") {
+					res.Findings = append(res.Findings, &Finding{Kind: "spec", Case: g.c.Name, Cmd: "open after an unclean shutdown",
+						Impl: []string{out}, Expected: []string{"open ok recovered=1"}, Program: cmdsOf(g.c)})
+				}
+				g.im.Exec("kill")
+				_ = img
+				break
+			}
+			tries++
+			res.Tags["failed_opens_injected"]++
+			// the process that failed to open goes away; whatever it did to the directory stays
+			g.im.Exec("kill")
+			got, errs := readAll(g.im.FS.Image(), g.im.Dir, paramsCmd(g))
+			_, hadLock := g.im.FS.Image()[g.im.Dir+"/lock"]
+			why := errs
+			if why == "" {
+				for key, v := range g.ref {
+					if string(got[key]) != string(v) {
+						why = "key " + interp.Hex([]byte(key)) + " lost or wrong"
+						break
+					}
+				}
+				if why == "" && len(got) != len(g.ref) {
+					why = fmt.Sprintf("%d keys, expected %d", len(got), len(g.ref))
+				}
+			}
+			if why != "" {
+				res.Findings = append(res.Findings, &Finding{Kind: "spec", Case: g.c.Name,
+					Cmd:      fmt.Sprintf("unclean shutdown; Open failing at its file-system call %d; next Open", k),
+					Impl:     []string{why, fmt.Sprintf("lock file present after the failed Open: %v", hadLock)},
+					Expected: []string{"the next successful Open recovers the acknowledged contents"}, Program: cmdsOf(g.c)})
+				break
+			}
+		}
+		c, _ := g.finish()
+		res.addCase(c)
+		res.Distinct++
+	}
+}
+
 func genC13(r *rng, tier string, res *Result) {
+	genC13db(r, tier, res)
 	tmp, err := os.MkdirTemp("", "pgh-c13-")
 	if err != nil {
 		panic(err)
@@ -308,7 +393,7 @@ func genC13(r *rng, tier string, res *Result) {
 		sched := rn.sched
 		if rn.multi >= 0 {
 			res.Findings = append(res.Findings, &Finding{Kind: "spec", Case: fmt.Sprintf("C13/%d", i), Step: rn.multi, Cmd: sched[rn.multi],
-				Impl: []string{"more than one simultaneous holder of the lock", rn.impl[rn.multi]},
+				Impl:     []string{"more than one simultaneous holder of the lock", rn.impl[rn.multi]},
 				Expected: []string{"at most one holder"}, Program: sched})
 			continue
 		}
